@@ -375,11 +375,24 @@ fn error_paths(ctx: &Ctx) {
     let arr = Array3::<f64>::from_shape_fn((2, 3, 2), |(i, j, k)| coded(i, j, k));
     let t = Tensor::<NdArray<f32>, 3>::from_data(TensorData::new((0..12).map(|x| x as f32).collect::<Vec<_>>(), [2, 3, 2]), &Default::default());
     let mut targets = vec![("missing-directory", format!("{dir}/no/such/dir/out.bin")), ("path-is-a-directory", dir.clone()), ("empty-path", String::new())];
-    if std::path::Path::new("/dev/full").exists() {
-        // opens fine, every write fails (device full): a small payload only fails at the final flush
-        targets.push(("device-full", "/dev/full".to_string()));
+    // A destination that opens fine while every write fails (device full): a small payload only fails at the final
+    // flush. The code under test never gets the system's /dev/full itself: a change that stages and RENAMES over its
+    // destination replaced that node by a regular file for the rest of the session (seeded C17-8 did, DESIGN §9). The
+    // harness makes its own node (same device numbers 1:7) inside its scratch directory, verifies that it is a
+    // character device on which a write fails with ENOSPC, and skips the case otherwise.
+    let private_full = format!("{dir}/full-device");
+    let _ = std::fs::remove_file(&private_full);
+    let made = std::process::Command::new("mknod").args(["-m", "666", &private_full, "c", "1", "7"]).stderr(std::process::Stdio::null()).status().map(|s| s.success()).unwrap_or(false);
+    let usable = made && {
+        use std::io::Write;
+        use std::os::unix::fs::FileTypeExt;
+        std::fs::metadata(&private_full).map(|m| m.file_type().is_char_device()).unwrap_or(false)
+            && std::fs::OpenOptions::new().write(true).open(&private_full).map(|mut f| f.write_all(b"x").and_then(|_| f.flush()).is_err()).unwrap_or(false)
+    };
+    if usable {
+        targets.push(("device-full", private_full.clone()));
     } else {
-        ctx.outcome("error-path:/dev/full not available (skipped)", 1);
+        ctx.outcome("error-path: no usable full-device node (mknod 1:7 not permitted here; case skipped)", 1);
     }
     for (what, path) in targets.iter() {
         let case = json!({"error_path": what, "path": path});
